@@ -677,6 +677,7 @@ pub fn run_op<T: Elem + Clone + Ord>(ctx: &mut Ctx, oc: &OpCase<'_>) -> Outcome 
     }
     ledger_counts(ctx);
     if ok {
+        ctx.detail(|| format!("{} -> {:?}", what(), outcome));
         match outcome {
             Outcome::Accepted => ctx.count("accepted", 1),
             Outcome::Rejected => ctx.count("rejected", 1),
